@@ -3065,9 +3065,12 @@ class Network(Cached):
         """
         DwR = self.sp_diag_sqrt_w()
         sp_Astar = DwR * self.sp_Aplus() * DwR
-        #  shift above the spectrum (largest eigenvalue <= total node weight)
+        #  shift just above the spectrum: the largest eigenvalue is bounded by
+        #  the largest n.s.i. degree (largest row sum of A+ Dw). A shift far
+        #  above it makes the shifted and inverted spectrum nearly degenerate
+        #  and ARPACK return unconverged vectors.
         _, evecs = eigsh(sp_Astar, k=1,
-                         sigma=max(self.total_node_weight, 1.0)**2,
+                         sigma=(1 + 1e-6) * self.nsi_degree().max(),
                          maxiter=100, tol=1e-8)
         ec = evecs.T[0] / np.sqrt(self.node_weights)
         ec *= np.sign(ec[0])
